@@ -2337,4 +2337,523 @@ Proof.
   pose proof (g_kpc _ HG) as K. unfold k_ok in K. rewrite Ek in K. destruct K as (Kr & Km & _).
   eapply inv_transfer; eauto. rewrite Ek. discriminate.
 Qed.
+
+Lemma count_none {A} (f : A -> bool) l : (forall i x, nth_error l i = Some x -> f x = false) -> count f l = 0.
+Proof.
+  unfold count. induction l as [|a l IH]; intros H; [reflexivity|]. simpl.
+  rewrite (H 0 a eq_refl). apply IH. intros i x Hx. apply (H (S i) x Hx).
+Qed.
+
+Lemma count_const {A B} (f : A -> bool) (c : A) (l : list B) :
+  count f (map (fun _ => c) l) = if f c then length l else 0.
+Proof. unfold count. induction l as [|a l IH]; simpl; [destruct (f c); reflexivity|]. destruct (f c); simpl; lia. Qed.
+
+Lemma nth_error_map_const {A B} (c : B) (l : list A) i y : nth_error (map (fun _ => c) l) i = Some y -> y = c.
+Proof. revert i. induction l as [|a l IH]; intros [|i] H; simpl in *; try discriminate; [congruence|eauto]. Qed.
+
+Lemma inv_LMerge s s' : GI s -> step s LMerge = Some s' -> GI s'.
+Proof.
+  intros HG Hs. simpl in Hs. destruct (merged s) eqn:Em; [discriminate|]. inversion Hs; subst s'; clear Hs.
+  assert (Hidle : forall i p, nth_error (ws s) i = Some p -> p = WIdle).
+  { intros i p Hp. destruct (src_exists _ _ _ HG Hp) as [x Hx].
+    apply (wi_idle _ _ _ _ (g_workers _ HG i p x Hp Hx)). exact Em. }
+  assert (Hnd : ndone s = 0).
+  { rewrite (g_ndone _ HG). apply count_none. intros i p Hp. rewrite (Hidle i p Hp). reflexivity. }
+  pose proof (g_kpc _ HG) as K. unfold k_ok in K.
+  assert (Hk : kpc_ s = KIdle).
+  { destruct (kpc_ s); try reflexivity; exfalso; intuition congruence. }
+  rewrite Hk in K.
+  constructor; simpl; rewrite ?map_length; try (apply HG; fail).
+  - rewrite count_const. simpl. exact Hnd.
+  - intros _. rewrite count_const. simpl. symmetry. apply (g_lenw _ HG).
+  - pose proof (g_once _ HG) as O. destruct (once s); [|exact O].
+    destruct O as (i0 & e & p0 & A & B & C). exists i0, e, WCallNext. split; [exact A|].
+    split; [rewrite nth_error_map, B; reflexivity|].
+    destruct C as [C|C]; [left; exact C|]. rewrite (Hidle _ _ B) in C. destruct C; discriminate.
+  - pose proof (g_sender _ HG) as S. destruct (sdone s); [|exact S]. destruct S as [S1 S2]. split; [exact S1|].
+    destruct (serr s); [exact S2|]. destruct S2 as (A & B & C). split; [exact A|]. split; [exact B|].
+    intros j q Hq. rewrite (nth_error_map_const _ _ _ _ Hq). reflexivity.
+  - intros j1 j2 q1 q2 H1 H2 C1 C2. rewrite (nth_error_map_const _ _ _ _ H1) in C1. discriminate.
+  - intros A B. exfalso. lia.
+  - unfold k_ok. simpl. rewrite Hk. intros R. destruct (K R) as [M _]. congruence.
+  - intros j q y Hq Hy. rewrite (nth_error_map_const _ _ _ _ Hq).
+    destruct (nth_error (ws s) j) as [q0|] eqn:Hq0.
+    + pose proof (Hidle _ _ Hq0) as ->. destruct (g_workers _ HG j WIdle y Hq0 Hy) as [w1 w2 w3 w4 w5 w6 w7 w8 w9].
+      constructor; simpl in *; auto; no_win. split; discriminate.
+    + exfalso. rewrite nth_error_map, Hq0 in Hq. discriminate.
+Qed.
+
+Lemma inv_LRetClose s s' : GI s -> step s LRetClose = Some s' -> GI s'.
+Proof.
+  intros HG Hs. simpl in Hs. destruct (kpc_ s) eqn:Ek; try discriminate. inversion Hs; subst s'; clear Hs.
+  pose proof (g_kpc _ HG) as K. unfold k_ok in K. rewrite Ek in K. destruct K as [Km K].
+  destruct (ws s) as [|p0 wl] eqn:Ew.
+  - assert (Hn : nw s = 0) by (rewrite <- (g_lenw _ HG), Ew; reflexivity).
+    constructor; simpl; try (apply HG; fail).
+    + intros _. right. reflexivity.
+    + unfold k_ok. simpl. auto.
+    + destruct (g_seen _ HG) as [S1 S2]. unfold seen_ok, results in *. simpl. rewrite Ek in *. split; auto.
+    + intros i p x Hp. rewrite Ew in Hp. destruct i; discriminate.
+  - eapply GI_same_core; [exact HG | core | |].
+    + unfold k_ok. simpl. intros R. split; [exact Km|]. destruct K as [Z|(_ & _ & Z)]; auto.
+    + eapply seen_ok_same; [core | | exact (g_seen _ HG)].
+      intros r Hr. unfold results in *. simpl in Hr. rewrite Ek. exact Hr.
+Qed.
+
+Theorem inv_step s l s' : GI s -> step s l = Some s' -> GI s'.
+Proof.
+  intros HG Hs. destruct l.
+  - eapply inv_LMerge; eauto.
+  - eapply inv_LSrcEnter; eauto.
+  - eapply inv_LSrcExit; eauto.
+  - eapply inv_LSrcClose; eauto.
+  - eapply inv_LRelease; eauto.
+  - eapply inv_LGo; eauto.
+  - eapply inv_LCallNext; eauto.
+  - eapply inv_LRetNext; eauto.
+  - eapply inv_LCallClose; eauto.
+  - eapply inv_LRetClose; eauto.
+  - eapply inv_LCancel; eauto.
+  - discriminate.
+  - eapply inv_TSendPoll; eauto.
+  - destruct a; try (eapply inv_TSendSel_local; eauto; discriminate). eapply inv_TSendSel_chan; eauto.
+  - eapply inv_TCas; eauto.
+  - eapply inv_TWCancel; eauto.
+  - eapply inv_TSCloseErr; eauto.
+  - eapply inv_TDefer; eauto.
+  - eapply inv_TLoadOnce; eauto.
+  - eapply inv_TSCloseNil; eauto.
+  - eapply inv_TWgDone; eauto.
+  - destruct a; try (eapply inv_TNextSel_local; eauto; discriminate). eapply inv_TNextSel_chan; eauto.
+  - destruct o; [eapply inv_TDrain_some | eapply inv_TDrain_none]; eauto.
+  - eapply inv_TCancelEff; eauto.
+  - eapply inv_TKClose1; eauto.
+  - eapply inv_TKClose2; eauto.
+  - eapply inv_TKWait; eauto.
+Qed.
+
+Lemma inv_qstep s l s' : GI s -> qstep s l = Some s' -> GI s'.
+Proof.
+  intros HG Hs. destruct l; try (exact (inv_step _ _ _ HG Hs)).
+  simpl in Hs. destruct (quiescent s && Nat.eqb alive0 (alive s)); inversion Hs; subst; exact HG.
+Qed.
+
+Lemma inv_init scripts prog nctx : GI (init scripts prog nctx).
+Proof.
+  unfold init. constructor; simpl; rewrite ?map_length; auto.
+  - rewrite count_const. reflexivity.
+  - discriminate.
+  - intros i j p q Hp. rewrite (nth_error_map_const _ _ _ _ Hp). discriminate.
+  - unfold k_ok. simpl. discriminate.
+  - unfold seen_ok, results. simpl. split; [intros z []|intros []].
+  - intros i p x Hp Hx. rewrite (nth_error_map_const _ _ _ _ Hp).
+    destruct (nth_error_map_some _ _ _ _ Hx) as (sc & _ & ->).
+    constructor; simpl; auto; no_win. split; reflexivity.
+Qed.
+
+Theorem reachable_inv scripts prog nctx s :
+  reachable qstep (init scripts prog nctx) s -> GI s /\ nw s = length scripts.
+Proof.
+  intros Hr.
+  apply (invariant_rule qstep (fun s => GI s /\ nw s = length scripts) (init scripts prog nctx));
+    [split; [apply inv_init|reflexivity]| |exact Hr].
+  intros s1 l s2 [HG Hn] Hs. split; [eapply inv_qstep; eauto|].
+  pose proof (inv_qstep _ _ _ HG Hs) as HG2.
+  (* nw is a constant field *)
+  destruct l; simpl in Hs;
+    repeat match type of Hs with
+           | context [match ?x with _ => _ end] => destruct x
+           end; try discriminate; inversion Hs; subst; simpl; try exact Hn;
+    unfold close_sender; try (destruct (sdone s1)); simpl; exact Hn.
+Qed.
+
+(* ---- two more (simple) invariants about the consumer ---- *)
+Definition k_waits (k : kpc) : bool :=
+  match k with KNextSel _ | KNextParked _ | KDrain | KClose1 | KClose2 | KWait => true | _ => false end.
+
+Definition XI (s : st) : Prop :=
+  (k_waits (kpc_ s) = true -> ws s <> [])
+  /\ (k_parked s = true -> forall i p, nth_error (ws s) i = Some p -> is_parked p = false).
+
+Lemma map_nonnil {A B} (f : A -> B) l : l <> [] -> map f l <> [].
+Proof. destruct l; [congruence|discriminate]. Qed.
+Lemma upd_nonnil {A} (l : list A) i x : l <> [] -> upd l i x <> [].
+Proof. destruct l; [congruence|]. destruct i; discriminate. Qed.
+
+Lemma existsb_parked_false l : existsb is_parked l = false -> forall i p, nth_error l i = Some p -> is_parked p = false.
+Proof.
+  induction l as [|a l IH]; intros H [|i] p Hp; simpl in *; try discriminate; apply orb_false_elim in H; destruct H as [H1 H2].
+  - inversion Hp; subst; exact H1.
+  - eapply IH; eauto.
+Qed.
+
+(* the consumer's pc is unchanged and no Send becomes parked *)
+Lemma xi_shrink s s' :
+  XI s -> kpc_ s' = kpc_ s -> (ws s <> [] -> ws s' <> []) ->
+  (forall j q', nth_error (ws s') j = Some q' -> is_parked q' = true ->
+                exists q, nth_error (ws s) j = Some q /\ is_parked q = true) ->
+  XI s'.
+Proof.
+  intros [X1 X2] Ek Hne Hpk. unfold XI, k_parked in *. rewrite Ek. split.
+  - intros Hw. apply Hne. apply X1. exact Hw.
+  - intros Hk j q' Hq'. destruct (is_parked q') eqn:E; [|reflexivity].
+    destruct (Hpk j q' Hq' E) as (q & Hq & Eq). rewrite (X2 Hk j q Hq) in Eq. discriminate.
+Qed.
+
+Lemma xi_setw s i p' : XI s -> is_parked p' = false -> XI (setw s i p').
+Proof.
+  intros HX Hp. apply (xi_shrink s); auto; simpl.
+  - apply upd_nonnil.
+  - intros j q' Hq' E. destruct (nth_error_upd_cases _ _ _ _ _ Hq') as [[-> ->]|[Hne Hq]]; [congruence|eauto].
+Qed.
+
+Lemma xi_wake s s' g i p' :
+  XI s -> wake_ok g -> kpc_ s' = kpc_ s -> ws s' = upd (map g (ws s)) i p' -> is_parked p' = false -> XI s'.
+Proof.
+  intros HX Hg Ek Ews Hp. apply (xi_shrink s); auto; rewrite Ews.
+  - intros H. apply upd_nonnil. apply map_nonnil. exact H.
+  - intros j q' Hq' E. destruct (nth_error_wake_cases _ _ _ _ _ _ Hq') as [[-> ->]|[Hne (q0 & Hq0 & ->)]]; [congruence|].
+    exists q0. split; [exact Hq0|]. destruct (Hg q0) as [A B]. destruct (is_parked q0) eqn:E0; [reflexivity|].
+    rewrite (A eq_refl) in E. congruence.
+Qed.
+
+Lemma xi_wake_all s s' g :
+  XI s -> wake_ok g -> ws s' = map g (ws s) -> k_parked s' = false ->
+  (k_waits (kpc_ s') = true -> k_waits (kpc_ s) = true) -> XI s'.
+Proof.
+  intros [X1 X2] Hg Ews Hk Hw. unfold XI. rewrite Ews, Hk. split; [|discriminate].
+  intros H. apply map_nonnil. apply X1. apply Hw. exact H.
+Qed.
+
+(* consumer-only steps *)
+Lemma xi_consumer s s' :
+  XI s -> ws s' = ws s ->
+  (k_waits (kpc_ s') = true -> k_waits (kpc_ s) = true \/ ws s <> []) ->
+  (k_parked s' = true -> k_parked s = true \/ existsb is_parked (ws s) = false) ->
+  XI s'.
+Proof.
+  intros [X1 X2] Ews Hw Hk. unfold XI. rewrite Ews. split.
+  - intros H. destruct (Hw H) as [A|A]; auto.
+  - intros H. destruct (Hk H) as [A|A]; [exact (X2 A)|]. apply existsb_parked_false. exact A.
+Qed.
+
+Lemma xi_step s l s' : XI s -> step s l = Some s' -> XI s'.
+Proof.
+  intros HX Hs. destruct l; simpl in Hs.
+  - (* LMerge *) destruct (merged s); [discriminate|]. inversion Hs; subst; clear Hs.
+    apply (xi_shrink s); auto; simpl; [apply map_nonnil|].
+    intros j q' Hq' E. rewrite (nth_error_map_const _ _ _ _ Hq') in E. discriminate.
+  - destruct (nth_error (ws s) i) as [[]|]; try discriminate. inversion Hs; subst. apply xi_setw; auto.
+  - destruct (nth_error (ws s) i) as [[]|]; try discriminate. destruct (nth_error (srcs s) i); [|discriminate].
+    destruct r as [v'| |[z| |]];
+      repeat match type of Hs with context [match ?x with _ => _ end] => destruct x end;
+      try discriminate; inversion Hs; subst; apply (xi_setw (with_srcs s _)) || apply xi_setw; auto.
+  - destruct (nth_error (ws s) i) as [[]|]; try discriminate. destruct (nth_error (srcs s) i); [|discriminate].
+    inversion Hs; subst. apply (xi_setw (with_srcs s _)); auto.
+  - destruct (nth_error (srcs s) i); [|discriminate]. inversion Hs; subst. exact HX.
+  - destruct (merged s); [|discriminate]. inversion Hs; subst. exact HX.
+  - (* LCallNext *)
+    destruct (kpc_ s) eqn:Ek; try discriminate. destruct (kgo s); [discriminate|]. destruct (kprog s) as [|[c'|] rest]; try discriminate.
+    destruct (Nat.eqb c c' && merged s && negb (rdone s)); [|discriminate]. inversion Hs; subst; clear Hs.
+    apply (xi_consumer s); auto; unfold k_parked; simpl; destruct (ws s) eqn:Ew; simpl; try discriminate.
+    intros _. right. discriminate.
+  - (* LRetNext *)
+    destruct (kpc_ s) eqn:Ek; try discriminate. destruct (nres_eqb r r0); [|discriminate]. inversion Hs; subst.
+    apply (xi_consumer s); auto; unfold k_parked; simpl; discriminate.
+  - (* LCallClose *)
+    destruct (kpc_ s) eqn:Ek; try discriminate. destruct (kgo s); [discriminate|]. destruct (kprog s) as [|[c'|] rest]; try discriminate.
+    destruct (merged s && negb (rdone s)); [|discriminate]. inversion Hs; subst; clear Hs.
+    apply (xi_consumer s); auto; unfold k_parked; simpl; destruct (ws s) eqn:Ew; simpl; try discriminate.
+    intros _. right. discriminate.
+  - (* LRetClose *)
+    destruct (kpc_ s) eqn:Ek; try discriminate. inversion Hs; subst.
+    destruct (ws s) eqn:Ew; apply (xi_consumer s); auto; unfold k_parked; simpl; discriminate.
+  - destruct (nth_error (kctxs s) c) as [[| |]|]; try discriminate; inversion Hs; subst; exact HX.
+  - discriminate.
+  - destruct (nth_error (ws s) i) as [[]|]; try discriminate. inversion Hs; subst. apply xi_setw; auto.
+    destruct (sdone s); [destruct (serr s)|]; reflexivity.
+  - (* TSendSel *)
+    destruct (nth_error (ws s) i) as [[]|] eqn:Hp; try discriminate.
+    destruct a.
+    + destruct (ctx s); [|discriminate]. inversion Hs; subst. apply xi_setw; auto.
+    + destruct (rdone s); [|discriminate]. inversion Hs; subst. apply xi_setw; auto.
+    + destruct (sdone s); [|discriminate]. inversion Hs; subst. apply xi_setw; auto. destruct (serr s); reflexivity.
+    + destruct (k_parked s) eqn:Ek; [|discriminate]. inversion Hs; subst.
+      destruct HX as [X1 X2]. unfold XI, k_parked in *. simpl. split; [discriminate|discriminate].
+    + destruct (ctx s || rdone s || sdone s || k_parked s) eqn:Eg; [discriminate|]. inversion Hs; subst.
+      apply orb_false_elim in Eg. destruct Eg as [_ Ek].
+      destruct HX as [X1 X2]. unfold XI, k_parked in *. simpl. rewrite Ek. split; [|discriminate].
+      intros H. apply upd_nonnil. apply X1. exact H.
+  - destruct (nth_error (ws s) i) as [[]|]; try discriminate. destruct (once s); inversion Hs; subst.
+    + apply xi_setw; auto.
+    + apply (xi_setw (with_once s _)); auto.
+  - destruct (nth_error (ws s) i) as [[]|]; try discriminate. inversion Hs; subst.
+    eapply (xi_wake s _ wake_err); eauto using wake_err_ok; reflexivity.
+  - (* TSCloseErr *)
+    destruct (nth_error (ws s) i) as [[]|]; try discriminate. inversion Hs; subst. unfold close_sender.
+    destruct (sdone s); [apply xi_setw; auto|].
+    destruct HX as [X1 X2]. unfold XI, k_parked in *. simpl. split.
+    + intros H. apply upd_nonnil. apply map_nonnil. apply X1. destruct (kpc_ s); try discriminate; reflexivity.
+    + destruct (kpc_ s); discriminate.
+  - destruct (nth_error (ws s) i) as [[]|]; try discriminate. inversion Hs; subst.
+    apply (xi_setw (with_ndone s _)); auto.
+    match goal with |- is_parked (if ?b then _ else _) = false => destruct b; reflexivity end.
+  - destruct (nth_error (ws s) i) as [[]|]; try discriminate. inversion Hs; subst. apply xi_setw; auto.
+    destruct (once s); reflexivity.
+  - (* TSCloseNil *)
+    destruct (nth_error (ws s) i) as [[]|]; try discriminate. inversion Hs; subst. unfold close_sender.
+    destruct (sdone s); [apply xi_setw; auto|].
+    destruct HX as [X1 X2]. unfold XI, k_parked in *. simpl. split.
+    + intros H. apply upd_nonnil. apply map_nonnil. apply X1. destruct (kpc_ s); try discriminate; reflexivity.
+    + destruct (kpc_ s); discriminate.
+  - destruct (nth_error (ws s) i) as [[]|]; try discriminate. inversion Hs; subst.
+    apply (xi_setw (with_wg s _)); auto.
+  - (* TNextSel *)
+    destruct (kpc_ s) eqn:Ek; try discriminate. destruct a.
+    + destruct (kctx_done s c); [|discriminate]. inversion Hs; subst.
+      apply (xi_consumer s); auto; unfold k_parked; simpl; discriminate.
+    + destruct (nth_error (ws s) i) as [[]|]; try discriminate. inversion Hs; subst.
+      destruct HX as [X1 X2]. unfold XI, k_parked in *. simpl. split; discriminate.
+    + destruct (sdone s); [|discriminate]. inversion Hs; subst.
+      apply (xi_consumer s); auto; unfold k_parked; simpl; [|discriminate]. intros _. left. rewrite Ek. reflexivity.
+    + destruct (kctx_done s c || sdone s || existsb is_parked (ws s)) eqn:Eg; [discriminate|]. inversion Hs; subst.
+      apply orb_false_elim in Eg. destruct Eg as [_ Ep].
+      apply (xi_consumer s); [exact HX | reflexivity | intros _; left; rewrite Ek; reflexivity | intros _; right; exact Ep].
+  - (* TDrain *)
+    destruct (kpc_ s) eqn:Ek; try discriminate. destruct o.
+    + destruct (nth_error (ws s) n) as [[]|]; try discriminate. inversion Hs; subst.
+      destruct HX as [X1 X2]. unfold XI, k_parked in *. simpl. split; discriminate.
+    + destruct (existsb is_parked (ws s)); [discriminate|]. inversion Hs; subst.
+      apply (xi_consumer s); auto; unfold k_parked; simpl; discriminate.
+  - (* TCancelEff *)
+    destruct (nth_error (kctxs s) c) as [[| |]|]; try discriminate. inversion Hs; subst; clear Hs.
+    destruct (kpc_ s) eqn:Ek; try (apply (xi_consumer s); auto; unfold k_parked; simpl; rewrite Ek; auto; fail).
+    destruct (Nat.eqb c c0).
+    + apply (xi_consumer s); auto; unfold k_parked; simpl; discriminate.
+    + apply (xi_consumer s); auto; unfold k_parked; simpl; rewrite Ek; auto.
+  - destruct (kpc_ s) eqn:Ek; try discriminate. inversion Hs; subst.
+    eapply (xi_wake_all s _ wake_err); eauto using wake_err_ok; try reflexivity. simpl. rewrite Ek. auto.
+  - destruct (kpc_ s) eqn:Ek; try discriminate. inversion Hs; subst.
+    eapply (xi_wake_all s _ wake_err); eauto using wake_err_ok; try reflexivity. simpl. rewrite Ek. auto.
+  - destruct (kpc_ s) eqn:Ek; try discriminate. destruct (wg s); [|discriminate]. inversion Hs; subst.
+    apply (xi_consumer s); auto; unfold k_parked; simpl; discriminate.
+Qed.
+
+Lemma reachable_xi scripts prog nctx s : reachable qstep (init scripts prog nctx) s -> XI s.
+Proof.
+  intros Hr. apply (invariant_rule qstep XI (init scripts prog nctx)); [| |exact Hr].
+  - unfold XI, k_parked. simpl. split; discriminate.
+  - intros s1 l s2 HX Hs. destruct l; try (exact (xi_step _ _ _ HX Hs)).
+    simpl in Hs. destruct (quiescent s1 && Nat.eqb alive0 (alive s1)); inversion Hs; subst; exact HX.
+Qed.
+
+(* ---- progress of a worker ---- *)
+Definition worker_can_step (s : st) (i : nat) : Prop :=
+  exists l, In l (worker_taus i ++ worker_visible s i) /\ enabled s l = true.
+Definition waits_for_source (s : st) (i : nat) : Prop :=
+  nth_error (ws s) i = Some WInNext /\ ctx s = false
+  /\ exists x, nth_error (srcs s) i = Some x /\ s_tokens x = 0.
+
+Ltac can_step l := exists l; split; [unfold worker_taus, worker_visible; simpl; tauto|unfold enabled; simpl].
+
+Lemma worker_enabled s i p :
+  GI s -> merged s = true -> nth_error (ws s) i = Some p -> p <> WExited ->
+  worker_can_step s i \/ waits_for_source s i \/ is_parked p = true.
+Proof.
+  intros HG Hm Hp Hne. destruct (src_exists _ _ _ HG Hp) as [x Hx].
+  pose proof (g_workers _ HG i p x Hp Hx) as W.
+  destruct p; try congruence.
+  - exfalso. destruct (wi_idle _ _ _ _ W) as [A _]. specialize (A eq_refl). congruence.
+  - left. can_step (LSrcEnter i). rewrite Hp. reflexivity.
+  - destruct (ctx s) eqn:Ec.
+    + left. can_step (LSrcExit i (SRErr ECtx)). rewrite Hp, Hx, Ec. reflexivity.
+    + destruct (s_tokens x) as [|t] eqn:Et.
+      * right. left. split; [exact Hp|]. split; [exact Ec|]. eauto.
+      * left. destruct (s_items x) as [|v rest] eqn:Ei; [destruct (s_fin x) as [e|] eqn:Ef|].
+        -- exists (LSrcExit i (SRErr (EScr e))). split.
+           ++ unfold worker_visible. rewrite Hx, Ei, Ef. simpl. tauto.
+           ++ unfold enabled. simpl. rewrite Hp, Hx, Et, Ei, Ef, Z.eqb_refl. reflexivity.
+        -- exists (LSrcExit i SREnd). split.
+           ++ unfold worker_visible. simpl. tauto.
+           ++ unfold enabled. simpl. rewrite Hp, Hx, Et, Ei, Ef. reflexivity.
+        -- exists (LSrcExit i (SRItem v)). split.
+           ++ unfold worker_visible. rewrite Hx, Ei. simpl. tauto.
+           ++ unfold enabled. simpl. rewrite Hp, Hx, Et, Ei, Z.eqb_refl. reflexivity.
+  - left. can_step (TSendPoll i). rewrite Hp. reflexivity.
+  - left. destruct (ctx s) eqn:Ec; [can_step (TSendSel i ACtx); rewrite Hp, Ec; reflexivity|].
+    destruct (rdone s) eqn:Er; [can_step (TSendSel i AStream); rewrite Hp, Er; reflexivity|].
+    destruct (sdone s) eqn:Ed; [can_step (TSendSel i ASender); rewrite Hp, Ed; reflexivity|].
+    destruct (k_parked s) eqn:Ek; [can_step (TSendSel i AChan); rewrite Hp, Ek; reflexivity|].
+    can_step (TSendSel i APark). rewrite Hp, Ec, Er, Ed, Ek. reflexivity.
+  - right. right. reflexivity.
+  - left. can_step (TCas i). rewrite Hp. destruct (once s); reflexivity.
+  - left. can_step (TWCancel i). rewrite Hp. reflexivity.
+  - left. can_step (TSCloseErr i). rewrite Hp. reflexivity.
+  - left. can_step (TDefer i). rewrite Hp. reflexivity.
+  - left. can_step (TLoadOnce i). rewrite Hp. reflexivity.
+  - left. can_step (TSCloseNil i). rewrite Hp. reflexivity.
+  - left. can_step (LSrcClose i). rewrite Hp, Hx. reflexivity.
+  - left. can_step (TWgDone i). rewrite Hp. reflexivity.
+  - exfalso. apply (wi_nopanic _ _ _ _ W). reflexivity.
+Qed.
+
+Lemma count_lt_exists {A} (f : A -> bool) l : count f l < length l -> exists i x, nth_error l i = Some x /\ f x = false.
+Proof.
+  unfold count. induction l as [|a l IH]; intros H; simpl in *; [lia|].
+  destruct (f a) eqn:E; simpl in H.
+  - destruct IH as (i & x & Hx & Ex); [lia|]. exists (S i), x. auto.
+  - exists 0, a. auto.
+Qed.
+
+(* ================= the theorems ================= *)
+
+(* C12_stream_interleaving *)
+Theorem stream_interleaving scripts prog nctx s :
+  reachable qstep (init scripts prog nctx) s ->
+  Forall (fun p => fst p < length scripts) (recvd s)
+  /\ forall i p x, nth_error (ws s) i = Some p -> nth_error (srcs s) i = Some x ->
+       (* what the consumer received from input i, then the item worker i holds, is a prefix of what input i yielded *)
+       (exists d, s_out x = from i (recvd s) ++ held p ++ d)
+       (* and nothing is dropped unless an input failed or the output was closed *)
+       /\ (once s = false -> rdone s = false -> s_out x = from i (recvd s) ++ held p).
+Proof.
+  intros Hr. destruct (reachable_inv _ _ _ _ Hr) as [HG Hn]. split; [rewrite <- Hn; exact (g_tags _ HG)|].
+  intros i p x Hp Hx. pose proof (g_workers _ HG i p x Hp Hx) as W.
+  pose proof (wi_data _ _ _ _ W) as D. pose proof (wi_ended _ _ _ _ W) as E.
+  destruct (post_loop p) eqn:Epl.
+  - assert (Hh : held p = []) by (destruct p; try discriminate; reflexivity). rewrite Hh. simpl. split; [exact D|].
+    intros Ho Hrd. rewrite app_nil_r. apply E; auto.
+  - split; [exists []; rewrite app_nil_r; exact D | intros _ _; exact D].
+Qed.
+
+(* C12_stream_end_when_all_done *)
+Theorem stream_end_only_when_done scripts prog nctx s :
+  reachable qstep (init scripts prog nctx) s -> In NEnd (results s) ->
+  forall i x, nth_error (srcs s) i = Some x ->
+    s_items x = [] /\ s_fin x = None /\ s_out x = from i (recvd s).
+Proof.
+  intros Hr HE i x Hx. destruct (reachable_inv _ _ _ _ Hr) as [HG Hn].
+  destruct (g_seen _ HG) as [_ S2]. destruct (S2 HE) as [Z|(_ & _ & F)]; [|exact (F i x Hx)].
+  exfalso. assert (i < length (srcs s)) by (apply nth_error_Some; congruence). rewrite (g_lens _ HG) in *. lia.
+Qed.
+
+Theorem stream_zero_inputs_end_at_once prog nctx s c s' :
+  reachable qstep (init [] prog nctx) s -> step s (LCallNext c) = Some s' -> kpc_ s' = KRet NEnd.
+Proof.
+  intros Hr Hs. destruct (reachable_inv _ _ _ _ Hr) as [HG Hn]. simpl in Hn.
+  assert (Hw : ws s = []) by (destruct (ws s) eqn:E; [reflexivity|]; pose proof (g_lenw _ HG) as L; rewrite E in L; simpl in L; lia).
+  simpl in Hs. destruct (kpc_ s); try discriminate. destruct (kgo s); [discriminate|].
+  destruct (kprog s) as [|[c'|] rest]; try discriminate.
+  destruct (Nat.eqb c c' && merged s && negb (rdone s)); [|discriminate]. inversion Hs; subst. simpl. rewrite Hw. reflexivity.
+Qed.
+
+(* while the consumer is blocked in Next, some worker goroutine is still running and either has an enabled step
+   or is waiting inside its input's Next (which the input must answer): End / the error is reported as soon as
+   the inputs are exhausted *)
+Theorem stream_next_progress scripts prog nctx s c :
+  reachable qstep (init scripts prog nctx) s -> kpc_ s = KNextParked c ->
+  exists i p, nth_error (ws s) i = Some p /\ p <> WExited /\ (worker_can_step s i \/ waits_for_source s i).
+Proof.
+  intros Hr Hk. destruct (reachable_inv _ _ _ _ Hr) as [HG Hn]. destruct (reachable_xi _ _ _ _ Hr) as [X1 X2].
+  pose proof (g_kpc _ HG) as K. unfold k_ok in K. rewrite Hk in K. destruct K as (Kr & Km & Kd).
+  assert (Hnz : nw s <> 0).
+  { rewrite <- (g_lenw _ HG). specialize (X1 ltac:(rewrite Hk; reflexivity)). destruct (ws s); [congruence|discriminate]. }
+  assert (Hnp : forall i p, nth_error (ws s) i = Some p -> is_parked p = false).
+  { apply X2. unfold k_parked. rewrite Hk. reflexivity. }
+  assert (Hex : exists i p, nth_error (ws s) i = Some p /\ p <> WExited /\ post_defer p = false \/ closer p = true /\ nth_error (ws s) i = Some p).
+  { destruct (Nat.eq_dec (ndone s) (nw s)) as [E|E].
+    - destruct (g_alldone _ HG E Hnz) as [D|(i & p & Hp & C)]; [congruence|]. exists i, p. right. auto.
+    - assert (L : count post_defer (ws s) < length (ws s)).
+      { pose proof (count_le post_defer (ws s)). rewrite <- (g_ndone _ HG), (g_lenw _ HG) in *. lia. }
+      destruct (count_lt_exists _ _ L) as (i & p & Hp & F). exists i, p. left. split; [exact Hp|]. split; [|exact F].
+      intros ->. discriminate. }
+  destruct Hex as (i & p & [(Hp & Hne & _)|(C & Hp)]).
+  - exists i, p. split; [exact Hp|]. split; [exact Hne|].
+    destruct (worker_enabled s i p HG Km Hp Hne) as [A|[A|A]]; auto. rewrite (Hnp _ _ Hp) in A. discriminate.
+  - assert (Hne : p <> WExited) by (intros ->; discriminate).
+    exists i, p. split; [exact Hp|]. split; [exact Hne|].
+    destruct (worker_enabled s i p HG Km Hp Hne) as [A|[A|A]]; auto. rewrite (Hnp _ _ Hp) in A. discriminate.
+Qed.
+
+(* C12_first_error *)
+Theorem stream_first_error scripts prog nctx s :
+  reachable qstep (init scripts prog nctx) s ->
+  (* a script error seen by the consumer is the one stored by the worker that won the closeOnce CAS *)
+  (forall z, In (NErr (EScr z)) (results s) -> serr s = Some (EScr z) /\ exists i, winners s = [(i, EScr z)])
+  (* at most one worker ever wins; the sender is closed at most once; no worker panics *)
+  /\ length (winners s) <= 1 /\ sclosed s <= 1
+  /\ (forall i, nth_error (ws s) i <> Some WPanic)
+  (* the stored error is what the pipe was closed with, by the winner *)
+  /\ (forall e, serr s = Some e -> sdone s = true /\ exists i, winners s = [(i, e)]).
+Proof.
+  intros Hr. destruct (reachable_inv _ _ _ _ Hr) as [HG Hn].
+  pose proof (g_sender _ HG) as S. pose proof (g_once _ HG) as O.
+  assert (Hse : forall e, serr s = Some e -> sdone s = true /\ exists i, winners s = [(i, e)]).
+  { intros e He. destruct (sdone s); [|destruct S; congruence]. split; [reflexivity|]. destruct S as [_ S]. rewrite He in S. exact S. }
+  split; [|split; [|split; [|split]]].
+  - intros z Hz. destruct (g_seen _ HG) as [S1 _]. specialize (S1 z Hz). split; [exact S1|]. apply (Hse _ S1).
+  - destruct (once s); [destruct O as (i & e & p & -> & _); simpl; lia | rewrite O; simpl; lia].
+  - destruct (sdone s); destruct S as [S1 S2]; lia.
+  - intros i Hp. destruct (src_exists _ _ _ HG Hp) as [x Hx]. apply (wi_nopanic _ _ _ _ (g_workers _ HG i _ x Hp Hx)). reflexivity.
+  - exact Hse.
+Qed.
+
+(* once closed the pipe's error cell never changes: errors of later failing inputs are dropped *)
+Theorem stream_error_sticky s l s' : step s l = Some s' -> sdone s = true -> sdone s' = true /\ serr s' = serr s.
+Proof.
+  intros Hs Hd. destruct l; simpl in Hs;
+    repeat match type of Hs with
+           | context [match ?x with _ => _ end] => destruct x
+           end; try discriminate; try congruence; inversion Hs; subst; clear Hs; unfold close_sender; rewrite ?Hd; simpl; auto;
+    try congruence.
+Qed.
+
+Theorem stream_lost_cas_drops_error s i s' :
+  step s (TCas i) = Some s' -> once s = true ->
+  serr s' = serr s /\ sdone s' = sdone s /\ winners s' = winners s /\ ctx s' = ctx s.
+Proof.
+  intros Hs Ho. simpl in Hs. destruct (nth_error (ws s) i) as [[]|]; try discriminate. rewrite Ho in Hs.
+  inversion Hs; subst. simpl. auto.
+Qed.
+
+(* C12_workers_exit_after_close *)
+Theorem stream_workers_exit_after_close scripts prog nctx s :
+  reachable qstep (init scripts prog nctx) s ->
+  (* Close is in progress: first its own two steps are enabled, then every worker that has not finished has an
+     enabled step (an input's Next returns because the shared context is cancelled), then wg.Wait returns *)
+  (kpc_ s = KClose1 -> enabled s TKClose1 = true)
+  /\ (kpc_ s = KClose2 -> enabled s TKClose2 = true)
+  /\ (kpc_ s = KWait ->
+      (forall i p, nth_error (ws s) i = Some p -> p <> WExited -> worker_can_step s i)
+      /\ ((forall i p, nth_error (ws s) i = Some p -> p = WExited) -> enabled s TKWait = true))
+  (* every input is closed at most once, and exactly once by the time Close returns, when all workers are gone *)
+  /\ (forall i p x, nth_error (ws s) i = Some p -> nth_error (srcs s) i = Some x -> s_closes x = closed_in p)
+  /\ (kpc_ s = KCloseRet \/ (kpc_ s = KIdle /\ rdone s = true) ->
+      forall i p x, nth_error (ws s) i = Some p -> nth_error (srcs s) i = Some x -> p = WExited /\ s_closes x = 1).
+Proof.
+  intros Hr. destruct (reachable_inv _ _ _ _ Hr) as [HG Hn].
+  pose proof (g_kpc _ HG) as K. unfold k_ok in K.
+  split; [|split; [|split; [|split]]].
+  - intros Ek. unfold enabled. simpl. rewrite Ek. reflexivity.
+  - intros Ek. unfold enabled. simpl. rewrite Ek. reflexivity.
+  - intros Ek. rewrite Ek in K. destruct K as (Kr & Km & Kc). split.
+    + intros i p Hp Hne. destruct (worker_enabled s i p HG Km Hp Hne) as [A|[(_ & A & _)|A]]; [exact A|congruence|].
+      exfalso. destruct (src_exists _ _ _ HG Hp) as [x Hx].
+      destruct (wi_parked _ _ _ _ (g_workers _ HG i p x Hp Hx) A) as (_ & B & _). congruence.
+    + intros Hall. unfold enabled. simpl. rewrite Ek.
+      assert (W : wg s = 0).
+      { rewrite (g_wg _ HG Km). apply count_none. intros i p Hp. rewrite (Hall i p Hp). reflexivity. }
+      rewrite W. reflexivity.
+  - intros i p x Hp Hx. apply (wi_closes _ _ _ _ (g_workers _ HG i p x Hp Hx)).
+  - intros Hk i p x Hp Hx.
+    assert (Hnz : nw s <> 0).
+    { assert (i < length (ws s)) by (apply nth_error_Some; congruence). rewrite (g_lenw _ HG) in *. lia. }
+    assert (W : wg s = 0 /\ merged s = true).
+    { destruct Hk as [Ek|[Ek Er]]; rewrite Ek in K.
+      - destruct K as [Km [Z|(_ & _ & Z)]]; [congruence|auto].
+      - destruct (K Er) as [Km [Z|Z]]; [congruence|auto]. }
+    destruct W as [W Km]. rewrite (g_wg _ HG Km) in W.
+    pose proof (count_zero _ _ W i p Hp) as E. assert (p = WExited) by (destruct p; try discriminate; reflexivity). subst p.
+    split; [reflexivity|]. apply (wi_closes _ _ _ _ (g_workers _ HG i _ x Hp Hx)).
+Qed.
 End SMP.
